@@ -6,13 +6,17 @@ import (
 	"bytes"
 	"crypto/sha1"
 	"fmt"
+	"io"
 	"os"
 	"os/exec"
 	"path/filepath"
 	"regexp"
 	"sort"
 	"strings"
+	"sync/atomic"
+	"syscall"
 	"time"
+	"unsafe"
 )
 
 // C18 — the CLI emits exactly the library's output, to stdout or to the file.
@@ -86,6 +90,8 @@ func c18Inputs() []c18Input {
 		// backslash, quotes, a control character): the CLI must print what the library returns, not a re-encoding of it
 		{"encoder-specials", strings.Replace(strings.Replace(seedProfilePlain, "message: p1 is required", "message: \"<p1> & 'q' \\\\ \\u00e9\\u6f22\\U0001F600 \\u2028\\u2029 </script> is required\"", 1), "profile: seed plain", "profile: \"a<b>&c \\u00e9\"", 1),
 			strings.ReplaceAll(strings.ReplaceAll(one.FlatJSONLD(), "http://ex.org/n", "http://ex.org/q?a=1&b=2#n"), "\"a\"", "\"<a> & b \\u2028 \\u00e9\\ud83d\\ude00 \\\\ \\u0001 \\\"q\\\" </x>\""), true, true},
+		// one physical line of more than 64 KiB (and a profile with CRLF line ends): the tool reads its inputs as text
+		{"long-line", strings.ReplaceAll(seedProfilePlain, "\n", "\r\n"), func() string { d := one.FlatJSONLD(); return d[:1] + strings.Repeat(" ", 70000) + d[1:] }(), true, true},
 		{"percent", strings.Replace(strings.Replace(seedProfilePlain, "message: p1 is required", "message: \"100% of %d nodes need p1 %s\"", 1), "profile: seed plain", "profile: 50%v plain", 1), strings.ReplaceAll(one.FlatJSONLD(), "http://ex.org/n", "file:///my%20api.raml#n"), true, true},
 	}
 }
@@ -93,7 +99,7 @@ func c18Inputs() []c18Input {
 func init() {
 	Register(Meta{
 		ID: "C18", Level: "model_checking",
-		Rule:        "state = (kind, mode, content) of the OUTPUT path; initial states: absent, empty file, short junk, long junk (longer than any report), read-only file, directory, missing parent directory; transitions = one run of the built acv: `validate P D OUT` and `validate P D` for 11 (P,D) inputs (conforming/short report, one violation, many violations/long report, two profile errors, two data errors, empty graph, `%` in names/messages/ids, HTML-sensitive/non-ASCII/control characters in names, messages, ids and values), missing input files, `generate P`, `normalize D`, `compile P`, wrong argument counts, unknown command. Breadth-first to a fixpoint of the canonical state set (content hashed with the dateCreated value masked). Oracle per transition: the library called in-process on the same texts (report modulo the dateCreated value, which must be RFC3339 within the invocation's wall-clock window; generated code after a counter reset; normalised input); failures: non-zero exit and empty stdout.",
+		Rule:        "state = (kind, mode, content) of the OUTPUT path; initial states: absent, empty file, short junk, long junk (longer than any report), read-only file, directory, missing parent directory; transitions = one run of the built acv: `validate P D OUT` and `validate P D` for 12 (P,D) inputs (conforming/short report, one violation, many violations/long report, two profile errors, two data errors, empty graph, `%` in names/messages/ids, a data line of 70 KB with a CRLF profile, HTML-sensitive/non-ASCII/control characters in names, messages, ids and values), missing input files, `generate P`, `normalize D`, `compile P`, wrong argument counts, unknown command; and, as environment answers, PROFILE or DATA delivered through a named pipe in 2-3 bursts cut at 6 offsets (the writer waits for the pipe to drain between bursts, so the tool meets a short read). Breadth-first to a fixpoint of the canonical state set (content hashed with the dateCreated value masked). Oracle per transition: the library called in-process on the same texts (report modulo the dateCreated value, which must be RFC3339 within the invocation's wall-clock window; generated code after a counter reset; normalised input); failures: non-zero exit and empty stdout.",
 		Assumptions: []string{"the sandbox runs as root, so a read-only output file is writable (that state is explored but behaves like a plain file)"},
 	}, func(tier string, emit func(c18Case)) {
 		init := []string{"absent", "empty", "short", "long", "readonly", "dir", "noparent"}
@@ -158,6 +164,78 @@ func c18Exec(dir string, args ...string) c18Run1 {
 	}
 	return r
 }
+
+// c18ExecFifo runs acv with args[idx] replaced by a named pipe through which `content` is delivered in bursts cut
+// at the given offsets. After each burst the writer waits until the pipe has been drained (FIONREAD == 0), so the
+// reader has necessarily seen a read return fewer bytes than the whole text — the "short read" environment answer —
+// without any timing assumption.
+func c18ExecFifo(dir string, args []string, idx int, content string, cuts []int) c18Run1 {
+	c18FifoN++
+	fifo := filepath.Join(dir, fmt.Sprintf("fifo%d", c18FifoN))
+	if err := syscall.Mkfifo(fifo, 0o600); err != nil {
+		panic("harness: mkfifo: " + err.Error())
+	}
+	defer os.Remove(fifo)
+	a := append([]string{}, args...)
+	a[idx] = fifo
+	cmd := exec.Command(os.Getenv("VERIF_ACV"), a...)
+	cmd.Dir = dir
+	var out, errb bytes.Buffer
+	cmd.Stdout, cmd.Stderr = &out, &errb
+	r := c18Run1{t0: time.Now()}
+	if err := cmd.Start(); err != nil {
+		panic("harness: " + err.Error())
+	}
+	var exited int32
+	done := make(chan struct{})
+	go func() {
+		defer close(done)
+		w, err := os.OpenFile(fifo, os.O_WRONLY, 0) // blocks until the reader opens the pipe
+		if err != nil {
+			return
+		}
+		defer w.Close()
+		fd := w.Fd()
+		prev := 0
+		for _, cut := range append(append([]int{}, cuts...), len(content)) {
+			if cut <= prev || cut > len(content) {
+				continue
+			}
+			if _, err := w.Write([]byte(content[prev:cut])); err != nil {
+				return
+			}
+			prev = cut
+			for atomic.LoadInt32(&exited) == 0 {
+				var pending int32
+				if _, _, e := syscall.Syscall(syscall.SYS_IOCTL, fd, 0x541B /* FIONREAD */, uintptr(unsafe.Pointer(&pending))); e != 0 || pending == 0 {
+					break
+				}
+				time.Sleep(200 * time.Microsecond)
+			}
+		}
+	}()
+	err := cmd.Wait()
+	atomic.StoreInt32(&exited, 1)
+	r.t1 = time.Now()
+	// a writer still waiting for a reader (the tool never opened the pipe) is released by opening the read end
+	if rd, e := os.OpenFile(fifo, os.O_RDONLY|syscall.O_NONBLOCK, 0); e == nil {
+		go io.Copy(io.Discard, rd)
+		<-done
+		rd.Close()
+	} else {
+		<-done
+	}
+	r.stdout = out.String()
+	if err != nil {
+		r.exit = -1
+		if ee, ok := err.(*exec.ExitError); ok {
+			r.exit = ee.ExitCode()
+		}
+	}
+	return r
+}
+
+var c18FifoN int
 
 // checkDate verifies the dateCreated value of a CLI report and returns the text with the value masked.
 func c18CheckDate(text string, t0, t1 time.Time) (string, string) {
@@ -364,6 +442,50 @@ func c18Run(c *Ctx, cs c18Case) {
 				}
 			}
 			if st.Kind == "absent" {
+				// --- inputs delivered through a pipe in several bursts (short reads): same outputs as from a file
+				for _, i := range []int{1, 2, 9, 10} {
+					in := inputs[i]
+					pf, df := files[fmt.Sprintf("p%d", i)], files[fmt.Sprintf("d%d", i)]
+					cutsOf := func(text string) [][]int {
+						n := len(text)
+						return [][]int{{1}, {n / 2}, {n - 1}, {n / 3, 2 * n / 3}, {4096}, {65536}}
+					}
+					norm, _, _ := ProcessInput(in.data)
+					GenReset()
+					code, _, _ := GenerateRego(in.profile)
+					for _, which := range []string{"profile", "data"} {
+						text, idx := in.profile, 1
+						if which == "data" {
+							text, idx = in.data, 2
+						}
+						for _, cuts := range cutsOf(text) {
+							if cuts[0] <= 0 || cuts[0] >= len(text) {
+								continue
+							}
+							r := c18ExecFifo(base, []string{"validate", pf, df}, idx, text, cuts)
+							transitions++
+							c.Eval(1)
+							got, _ := c18CheckDate(r.stdout, r.t0, r.t1)
+							if r.exit != 0 || (got != refs[i].report+"\n" && got != refs[i].report) {
+								bad("validate output differs when the "+which+" arrives through a pipe in several bursts", fmt.Sprintf("validate %s, %s through a FIFO cut at %v: exit=%d\n%s", in.name, which, cuts, r.exit, firstDiff(refs[i].report+"\n", got)))
+							}
+							if which == "profile" {
+								g := c18ExecFifo(base, []string{"generate", pf}, 1, text, cuts)
+								transitions++
+								if g.exit != 0 || (g.stdout != code+"\n" && g.stdout != code) {
+									bad("generate output differs when the profile arrives through a pipe in several bursts", fmt.Sprintf("generate %s through a FIFO cut at %v: exit=%d\n%s", in.name, cuts, g.exit, firstDiff(code+"\n", g.stdout)))
+								}
+							} else {
+								nz := c18ExecFifo(base, []string{"normalize", df}, 1, text, cuts)
+								transitions++
+								if nz.exit != 0 || (nz.stdout != Encode(norm)+"\n" && nz.stdout != Encode(norm)) {
+									bad("normalize output differs when the data arrives through a pipe in several bursts", fmt.Sprintf("normalize %s through a FIFO cut at %v: exit=%d\n%s", in.name, cuts, nz.exit, firstDiff(Encode(norm)+"\n", nz.stdout)))
+								}
+							}
+							c.Outcome("fifo " + which)
+						}
+					}
+				}
 				for _, args := range [][]string{
 					{"validate"}, {"validate", files["p0"]}, {"validate", files["p0"], files["d0"], "a", "b"}, {"generate"}, {"generate", files["p0"], "x"},
 					{"normalize"}, {"normalize", files["d0"], "x"}, {"compile"}, {"frobnicate"}, {"frobnicate", files["p0"], files["d0"]},
